@@ -858,6 +858,7 @@ func genC17(r *rng, tier string, emit func(string)) {
 	c17FixGen(r, tier, emit)  // records inside larger buffers (Model.SliceMem), key types in PKCS#12 bundles (Model.PKCS8)
 	c17Fix2Gen(r, tier, emit) // bundles with CA certificates, recipient key types, segmented / undecodable SignedData (c17fix2.go)
 	c17Fix3Gen(r, tier, emit) // SignedData over the empty content, content written with no member (c17fix3.go)
+	c17MacTruncGen(r, tier, emit) // stored MAC values of other lengths: only the whole HMAC is accepted (c17mactrunc.go)
 }
 
 // ---- a small definite-length TLV tree, to re-encode an envelope in the BER "streaming" form -----------------
